@@ -534,6 +534,10 @@ class Engine(ExprMixin, StmtMixin):
 
     # ------------------------------------------------------------------ top level
     def make_value(self, T_, name, st):
+        if isinstance(T_, TDict):
+            return st.alloc(HObj("builtins.dict", {"entries": VTuple([])}))
+        if isinstance(T_, TOpt) and isinstance(T_.inner, TDict):
+            return VOpt(z3.Bool(uid(name + "$none")), self.make_value(T_.inner, name, st))
         if isinstance(T_, TObj):
             fields = {f: self.make_value(t, f"{name}.{f}", st) for f, t in T_.fields.items()}
             return st.alloc(HObj(T_.cls, fields, T_))
@@ -611,6 +615,15 @@ class Engine(ExprMixin, StmtMixin):
             st.locals[a.vararg.arg] = self.make_value(ptypes.get(a.vararg.arg, TTuple([])), a.vararg.arg, st)
         if a.kwarg is not None:
             st.locals[a.kwarg.arg] = VRec("kwargs", {})
+        if c.get("relational"):
+            if fi.cls:
+                consts["self2"] = self.make_value(TObj(f"{fi.module.relpath}::{c.get('self_class', fi.cls)}", c.get("self", {})), "self2", st)
+                consts["self1"] = st.locals["self"]
+            for p in pnames:
+                if p == "self" and fi.cls:
+                    continue
+                consts[p + "2"] = self.make_value(ptypes[p], p + "2", st)
+                consts[p + "1"] = st.locals[p]
         for g, (T_, init) in c.get("ghost", {}).items():
             st.ghost[g] = self.make_value(T_, g, st) if init is None else None
         for g, (T_, init) in c.get("ghost", {}).items():
@@ -639,6 +652,21 @@ class Engine(ExprMixin, StmtMixin):
                                            f"{fi.module.relpath}:{fi.node.lineno}",
                                            "precondition is satisfiable (must be SAT)", func=self.top_func))
         results = self.exec_block(fi.node.body, st)
+        if c.get("relational"):
+            # second run of the same body on the second receiver / second parameter set (names with suffix 2)
+            results2 = []
+            for s_, oc in results:
+                if oc[0] not in (RET, NEXT):
+                    results2.append((s_, oc))
+                    continue
+                first = dict(s_.locals)
+                loc = {}
+                for p in pnames:
+                    loc[p] = s_.consts["self2"] if (p == "self" and fi.cls) else s_.consts[p + "2"]
+                s_.locals = loc
+                for s3, oc3 in self.exec_block(fi.node.body, s_):
+                    results2.append((s3, oc3))
+            results = results2
         n_normal = 0
         cover_pc = None
         for s, oc in results:
